@@ -359,7 +359,7 @@ func c10CompareText(m *vegeta.Metrics, ref c10Ref, rs []c10Res) error {
 	return nil
 }
 
-func runC10(c c10Case) error {
+func runC10(c c10Case) (err error) {
 	ref := c10Reference(c.Results)
 	// order A: as generated, closed once
 	var a vegeta.Metrics
@@ -370,6 +370,22 @@ func runC10(c c10Case) error {
 	if err := c10Compare(&a, ref, "added in generated order, closed once"); err != nil {
 		return err
 	}
+	// reports are values of their own: another report built meanwhile, with error texts of its own, changes nothing in this one
+	var other vegeta.Metrics
+	otherRes := []c10Res{{TS: 5, Latency: 7, Code: 500, Err: "another report: error 0"}, {TS: 6, Latency: 7, Code: 0, Err: "another report: error 1"}, {TS: 7, Latency: 9, Code: 502, Err: "another report: error 2"}}
+	for _, r := range otherRes {
+		other.Add(r.result())
+	}
+	other.Close()
+	a.Close()
+	if err := c10Compare(&a, ref, "added in generated order, closed once, read again after another report was built"); err != nil {
+		return err
+	}
+	defer func() {
+		if err == nil {
+			err = c10Compare(&other, c10Reference(otherRes), "another report of three failed results, read again after this one was built")
+		}
+	}()
 	// order B: drawn permutation with intermediate Close calls (periodic reporting)
 	closes := map[int]int{}
 	for _, p := range c.Closes {
@@ -472,6 +488,34 @@ func c10GenResults(t *rapid.T, n int) []c10Res {
 			rs[i].Epoch = 0
 		}
 		return rs
+	}
+	if tsKind != 0 && n >= 2 && rapid.IntRange(0, 5).Draw(t, "negative") == 0 {
+		// latencies below zero (a result file may hold them: the clock stepped back during the exchange): the end of such
+		// a result lies before its start, and when it started last the whole attack "ends" before its latest start. Every
+		// result still ends after the earliest start, so that the attack's span - the throughput's denominator - is positive.
+		latestAt, earliest := 0, rs[0].TS
+		for i := range rs {
+			if rs[i].TS >= rs[latestAt].TS {
+				latestAt = i
+			}
+			earliest = min(earliest, rs[i].TS)
+		}
+		for k, m := 0, rapid.IntRange(1, 3).Draw(t, "nneg"); k < m; k++ {
+			i := latestAt
+			if k > 0 {
+				i = rapid.IntRange(0, n-1).Draw(t, fmt.Sprintf("negat%d", k))
+			}
+			if room := rs[i].TS - earliest - 1; room >= 1 {
+				rs[i].Latency = -rapid.Int64Range(1, room).Draw(t, fmt.Sprintf("neg%d", k))
+			}
+		}
+		if rapid.Bool().Draw(t, "allshort") { // nothing else ends after the latest start
+			for i := range rs {
+				if rs[i].Latency > 0 {
+					rs[i].Latency = rs[i].Latency % 1000
+				}
+			}
+		}
 	}
 	// where on the time line: mostly 1970..2100, sometimes across the ends of the int64 nanosecond clock
 	// (1677-09-21, 2262-04-11) or near the years 1 and 9999 (all of which every codec carries)
